@@ -424,3 +424,56 @@ func knownCond(v any) (stackage.Condition, bool) {
 	}
 	return stackage.Condition{}, false
 }
+
+// AsStack / AsCond are the harness's own converters (written from the documented behaviour of ConvertStack /
+// ConvertCondition: a native value is returned as it is; otherwise pointers are followed to any depth, a value whose
+// type converts to Stack / Condition is converted, and a zero one does not count). The reference models use these, never
+// the library's converters: whatever the library remembers between calls cannot leak into the oracle, and C12 compares
+// the two on every form.
+func AsStack(v any) (stackage.Stack, bool) {
+	if v == nil {
+		return stackage.Stack{}, false
+	}
+	if s, ok := v.(stackage.Stack); ok {
+		return s, true
+	}
+	rv := reflect.ValueOf(v)
+	for rv.Kind() == reflect.Ptr {
+		if rv.IsNil() {
+			return stackage.Stack{}, false
+		}
+		rv = rv.Elem()
+	}
+	if !rv.IsValid() || !rv.Type().ConvertibleTo(tStack) {
+		return stackage.Stack{}, false
+	}
+	s, ok := rv.Convert(tStack).Interface().(stackage.Stack)
+	if !ok || s.IsZero() {
+		return stackage.Stack{}, false
+	}
+	return s, true
+}
+
+func AsCond(v any) (stackage.Condition, bool) {
+	if v == nil {
+		return stackage.Condition{}, false
+	}
+	if c, ok := v.(stackage.Condition); ok {
+		return c, true
+	}
+	rv := reflect.ValueOf(v)
+	for rv.Kind() == reflect.Ptr {
+		if rv.IsNil() {
+			return stackage.Condition{}, false
+		}
+		rv = rv.Elem()
+	}
+	if !rv.IsValid() || !rv.Type().ConvertibleTo(tCond) {
+		return stackage.Condition{}, false
+	}
+	c, ok := rv.Convert(tCond).Interface().(stackage.Condition)
+	if !ok || c.IsZero() {
+		return stackage.Condition{}, false
+	}
+	return c, true
+}
